@@ -114,6 +114,34 @@ def step (st : State) (w : List String) : State × String :=
       let ls := labelsOf name
       (st, s!"w={asStr qt (asWire st.zones ls qt)} m={asStr qt (asMsg st.zones ls qt)}")
     | _, _ => (st, "bad-op")
+  | "ch" :: "run" :: kv =>
+    let g := kvGet kv
+    let parseHop (h : String) : Option Hop :=
+      match h.splitOn ":" with
+      | ["x"] => some { kind := .missing, ad := false, ttl := 0, target := 0 }
+      | [k, ad, ttl, tgt] =>
+        match ttl.toNat?, tgt.toNat? with
+        | some ttl, some tgt =>
+          let kind : Option HopKind := if k == "c" then some .cname else if k == "a" then some .terminal
+            else if k == "n" then some .nxdomain else if k == "e" then some .nodata else if k == "s" then some .baggage else none
+          kind.map fun kd => { kind := kd, ad := ad == "1", ttl := ttl, target := tgt }
+        | _, _ => none
+      | _ => none
+    match (g "hops").bind (fun h => (h.splitOn ",").mapM parseHop), (g "el").bind String.toNat?, (g "qt").bind String.toNat? with
+    | some hops, some el, some qt =>
+      -- an uncached name is simply absent from the cache
+      let cache := hops
+      let qtOK := qt == 1
+      match cache[0]? with
+      | some h0 =>
+        if h0.kind == .missing then (st, "noentry") else
+        match wireChase (cache.map fun h => h) qtOK el (bflag (g "cd")) with
+        | some r =>
+          let ttls := ",".intercalate (r.ttls.map toString)
+          (st, s!"ok hops={r.hops} an={r.ttls.length} ad={boolStr r.ad} iad={boolStr r.infoAD} ttls={ttls}")
+        | none => (st, "decline")
+      | none => (st, "bad-op")
+    | _, _, _ => (st, "bad-op")
   | "ed" :: "serve" :: kv =>
     let p : Proto := match kvGet kv "proto" with
       | some "udp" => .udp
@@ -203,14 +231,20 @@ def step (st : State) (w : List String) : State × String :=
       | some "q" => some .question
       | some "z" => some .zone
       | _ => none
-    let q : Req := { rd := true, hasECS := false, cd := bflag (g "cd"), typeKnown := true, classKnown := true }
+    let pre := (g "pre").getD "ok"
+    let q : Req := { rd := pre != "nord", hasECS := pre == "ecs", cd := bflag (g "cd"), typeKnown := pre != "utype",
+                     classKnown := pre != "uclass" }
     let l : Lookups := { exactHit := ex, cut := cut, cutWire := cut, denial := false, failure := fk, failureWire := fk,
                          witnessHolds := true, denialImpossible := st.denialImpossible }
     -- the signed proof of a cut does not fit a DO client's 512-octet UDP buffer (the
     -- stripped DO=0 template is a lone SOA and fits): the cut's byte serve declines on size
     let cutFits := !(bflag (g "small") && bflag (g "do"))
     let s := wireLadder q l { sizeOK := cutFits }
-    (st, s!"wire={outStr s.out} msg={rungStr (msgLadder q l)}")
+    let m := match msgServe q false l with
+      | .drop => "drop"
+      | .noRecursion => "norec"
+      | .rung r => rungStr r
+    (st, s!"wire={outStr s.out} msg={m}")
   | _ => (st, "bad-op")
 
 end Driver.C05
